@@ -69,7 +69,7 @@ func init() {
 	register(&Prop{
 		ID: "C03L", Cmd: "lrfcheck", ReportAs: "C03",
 		Rule: "random grammars — 1/2 drawn exactly as the C03 stream draws them (genCertified{lrf: true, subMemo: 0.45, sentence: 0.5, maxRules: 5}), 1/8 certified left-recursive ones, 1/8 from the template family, 1/4 from the term generator without any filter — judged by the generator's own notion of left-recursion-free (gen.go wellFormed with all=true: the full left-call graph is acyclic) and of well-formed (all=false), and by the Lean checks `lrf` and `wf` on the least certificate computed by the driver; both verdicts compared verbatim, and a grammar of the C03 generator that is not left-recursion-free is an oracle failure. Non-trivial = the grammar has a Memoize and some rule has a left reference; distinct = distinct case text.",
-		Count: quickN(6000, 60000),
+		Count: quickN(6000, 240000),
 		Gen: func(rng *rand.Rand, tier string, i int) *Sexp {
 			var g genGrammar
 			src := ""
